@@ -204,25 +204,32 @@ def check_text(R, op, text, m, cfg, signs, tags, label, is_repr=False):
     R.outcome((op, label, cfg, signs, text[:40]))
 
 
+RETAIN = [{}, {"retain_names": False}, {"retain_coefficients": True, "retain_names": False}, {"retain_coefficients": True}]
+
+
 def render_and_check(R, sp, label, cfgs, sign_pairs, tags):
     m = model_of(sp)
-    for cfg in cfgs:
-        for signs in sign_pairs:
+    for ci, cfg in enumerate(cfgs):
+        for si, signs in enumerate(sign_pairs):
             if signs[1] == " " and m.shape != ():
                 continue
+            # the other global options must not matter for the text: one of the four retain settings per (display, sign) pair, all
+            # four spread over the grid
+            retain = RETAIN[(ci + si) % 4]
             with numpoly.global_options(display_graded=cfg[0], display_reverse=cfg[1], display_inverse=cfg[2],
                                         display_exponent=signs[0], display_multiply=signs[1]):
                 p = build_checked(sp)
-                tg = tags + [f"display_graded={cfg[0]}", f"display_reverse={cfg[1]}", f"display_inverse={cfg[2]}", f"signs={signs}"]
-                for op, f, is_repr in (("str", str, False), ("repr", repr, True), ("array_str", numpoly.array_str, False),
-                                       ("numpy.array_repr", numpy.array_repr, True)):
-                    try:
-                        text = f(p)
-                    except Exception as err:  # noqa: BLE001
-                        R.tr()
-                        R.fail(op, "exception", f"{label} {cfg} {signs}: {type(err).__name__}: {err}", tags=tg)
-                        continue
-                    check_text(R, op, text, m, cfg, signs, tg, label, is_repr)
+                tg = tags + [f"display_graded={cfg[0]}", f"display_reverse={cfg[1]}", f"display_inverse={cfg[2]}", f"signs={signs}"] + [f"{k_}={v_}" for k_, v_ in retain.items()]
+                with numpoly.global_options(**retain):
+                    for op, f, is_repr in (("str", str, False), ("repr", repr, True), ("array_str", numpoly.array_str, False),
+                                           ("numpy.array_repr", numpy.array_repr, True)):
+                        try:
+                            text = f(p)
+                        except Exception as err:  # noqa: BLE001
+                            R.tr()
+                            R.fail(op, "exception", f"{label} {cfg} {signs} {retain}: {type(err).__name__}: {err}", tags=tg)
+                            continue
+                        check_text(R, op, text, m, cfg, signs, tg, label, is_repr)
 
 
 def coefficient_variants():
@@ -259,6 +266,10 @@ def cases(tier, seed):
     for i0 in range(0, n, 22):
         out.append({"k": "sympy", "i0": i0, "i1": min(n, i0 + 22)})
     out.append({"k": "sympy3"})
+    # the FIRST display / export call of a process made under each display setting (fresh interpreter per setting)
+    for ci in range(len(DISPLAY)):
+        for si in range(len(SIGNS)):
+            out.append({"k": "firstcall", "ci": ci, "si": si})
     return out
 
 
@@ -310,6 +321,52 @@ def run_case(case, R):
             for i, sp in enumerate(space.twin_sequence()):
                 R.state(("twins", i, cfg))
                 render_and_check(R, sp, f"twin {i} {sp['n']} {sp['t']}", [cfg], SIGNS[:1], ["twins"])
+    elif k == "firstcall":
+        from ..fresh import run_fresh
+        cfg, signs = DISPLAY[case["ci"]], SIGNS[case["si"]]
+        opts = {"display_graded": cfg[0], "display_reverse": cfg[1], "display_inverse": cfg[2], "display_exponent": signs[0], "display_multiply": signs[1]}
+        body = f"""
+OPTS = {opts!r}
+def snap():
+    p = numpoly.polynomial_from_attributes([(2, 0), (1, 1), (0, 3), (0, 0)], [3, -1, 2, -4], ("q0", "q1"))
+    back = numpoly.polynomial(numpoly.to_sympy(p))
+    return {{"str": str(p), "repr": repr(p), "back": bool(numpy.all(back == p)) and back.shape == (), "arr": str(numpoly.polynomial([p, 1 - p]))}}
+out = []
+with numpoly.global_options(**OPTS):
+    out.append(snap())
+out.append(snap())
+with numpoly.global_options(**OPTS):
+    out.append(snap())
+out.append(snap())
+print(json.dumps(out))
+"""
+        R.tr()
+        R.state(("firstcall", case["ci"], case["si"]))
+        st, res = run_fresh(body)
+        tags = ["firstcall"] + [f"{k_}={v_}" for k_, v_ in opts.items()]
+        if st != "ok":
+            R.fail("to_sympy", "exception", f"first call of the process under {opts}: {res}", tags=tags)
+        else:
+            probs = []
+            if not all(x["back"] for x in res):
+                probs.append(f"polynomial(to_sympy(p)) != p in steps {[i for i, x in enumerate(res) if not x['back']]}")
+            if res[0] != res[2]:
+                probs.append(f"the same calls under the same options differ between the first time and later: {res[0]} vs {res[2]}")
+            if res[1] != res[3]:
+                probs.append(f"under the defaults: {res[1]} vs {res[3]}")
+            m_ = model_of(spec(("q0", "q1"), (), [((2, 0), 3), ((1, 1), -1), ((0, 3), 2), ((0, 0), -4)]))
+            for i, x in enumerate(res):
+                c_, s_ = (cfg, signs) if i % 2 == 0 else ((True, False, True), ("**", "*"))
+                try:
+                    v_, _ = read_element(x["str"], s_[0], s_[1])
+                    if v_ != m_:
+                        probs.append(f"step {i}: text {x['str']!r} denotes another polynomial")
+                except Exception as err:  # noqa: BLE001
+                    probs.append(f"step {i}: text {x['str']!r} unreadable: {err}")
+            if probs:
+                R.fail("first call", "wrong-value", f"fresh process, options {opts}: " + "; ".join(probs)[:500], tags=tags)
+            else:
+                R.outcome(("firstcall", case["ci"], case["si"]))
     elif k == "sympy3":
         # the sympy round trip over name sets whose numeric and textual orders differ (q2 vs q10), three or four names
         for names in (("q0", "q2", "q10"), ("q2", "q10"), ("q1", "q9", "q10", "q11"), ("q3", "q12")):
